@@ -318,6 +318,7 @@ def _flattenElement(
 
         if not root.tagName:
             yield keepGoing(root.children)
+            slotData.pop()
             return
 
         write(b"<")
@@ -349,6 +350,8 @@ def _flattenElement(
             write(b"</" + tagName + b">")
         else:
             write(b" />")
+        # This tag's slot data does not apply to anything after its end.
+        slotData.pop()
 
     elif isinstance(root, (tuple, list, GeneratorType)):
         for element in root:
